@@ -121,9 +121,9 @@ Print Assumptions C07_macro_body_depth_constant.
 (** on maps filter and map range over the keys in the (sorted) order of the canonical form *)
 Theorem C07_map_macros_visit_sorted_keys : forall rs E d m a0 a1,
   call_macro_impl rs E d #"filter" (VMap m) [a0; a1] =
-    with_ident rs a0 (fun x => filter_loop rs E d x a1 (map (fun kv => VString (fst kv)) m) []) /\
+    with_ident rs E a0 (fun x => filter_loop rs E d x a1 (map (fun kv => VString (fst kv)) m) []) /\
   call_macro_impl rs E d #"map" (VMap m) [a0; a1] =
-    with_ident rs a0 (fun x => map_loop rs E d x None a1 (map (fun kv => VString (fst kv)) m) []).
+    with_ident rs E a0 (fun x => map_loop rs E d x None a1 (map (fun kv => VString (fst kv)) m) []).
 Proof. exact map_macros_visit_sorted_keys. Qed.
 Print Assumptions C07_map_macros_visit_sorted_keys.
 
